@@ -238,7 +238,7 @@ theorem eth_tag_names_follower (dst src : Bytes) (type : Nat) (n : Layer) (rest'
     (ht : etherTypeOf n rest'.head? = some t) :
     be16At (serialize (.eth dst src type :: n :: rest') p) 12 = t := by
   simp only [wf, Bool.and_eq_true, beq_iff_eq] at hwf
-  simp only [serialize, write, List.head?_cons, List.drop_succ_cons, List.drop_zero]
+  simp only [serialize, write, ethPayloadType, List.head?_cons, List.drop_succ_cons, List.drop_zero]
   rw [show ∀ (f : Nat) (x y : Bytes), dst ++ src ++ w16 f ++ x ++ y = (dst ++ src) ++ (w16 f ++ (x ++ y)) by
     intros; simp only [List.append_assoc]]
   rw [be16At_at_len _ _ 12 (by simp [hwf.1, hwf.2]), be16At_w16']
